@@ -123,6 +123,8 @@ set lives in the VM's stack item. `descs` of the state is parallel to `vm.stack.
 structure Desc where
   endTagHandlerIdx : Option Locator := none
   removeContent : Bool := false
+  /-- ghost: ordinal of the start-tag event that opened the element -/
+  ord : Nat := 0
   deriving DecidableEq, Repr
 
 /-- the boxed end-tag handler of one element (`Element::into_end_tag_handler`), keyed by the ghost
@@ -168,13 +170,14 @@ structure St where
   payloads : List EndPayload := []
   /-- (kind code, handler id) ↦ number of invocations so far -/
   inv : List ((Nat × HId) × Nat) := []
-  /-- ordinal of the next start-tag token (ghost, keys `payloads`) -/
+  /-- ordinal of the current start-tag event = number of `handle_start_tag` calls so far (ghost; keys
+  `payloads`, stored in `Desc.ord` and in the dispatcher model's `EndTagH.ord`) -/
   ord : Nat := 0
   /-- newest first -/
   log : List LogEntry := []
   /-- a panic site of the Rust reached inside a callback that cannot return an error
-  (`handle_end_tag`); reported by the next fallible callback -/
-  fault : Option Err := none
+  (`handle_end_tag`); reported as `Err.panic site` by the next fallible callback -/
+  fault : Option String := none
 
 def kDoctype : Nat := 0
 def kComment : Nat := 1
@@ -231,8 +234,11 @@ def nsConv : Model.Ns → Sel.Ns
   | .svg => .svg
   | .mathml => .mathml
 
-def vmErr (_p : SelVM.Panic) : Err := .panic "selectors_vm"
-def dispErr (_p : Handlers.Panic) : Err := .panic "handlers_dispatcher"
+def vmMsg : String := "selectors_vm"
+def dispMsg : String := "handlers_dispatcher"
+def syncMsg : String := "descs out of sync with the VM stack"
+def vmErr (_p : SelVM.Panic) : Err := .panic vmMsg
+def dispErr (_p : Handlers.Panic) : Err := .panic dispMsg
 
 /-- `AuxStartTagInfo` (dispatcher model) ↦ `AuxStartTagInfo` (VM model): the attribute matcher slices
 names and values out of the input (attribute_matcher.rs:62-86). -/
@@ -256,17 +262,14 @@ def St.afterVm (s : St) (oldDepth : Nat) (vm' : SelVM.Vm) (infos : List SelVM.Ma
   match startMatchingInfos s.disp infos with
   | .error p => (s, .error (dispErr p))
   | .ok d =>
-    let descs := if vm'.stack.items.length > oldDepth then s.descs ++ [{}] else s.descs
+    let descs := if vm'.stack.items.length > oldDepth then s.descs ++ [{ ord := s.ord }] else s.descs
     let s := { s with disp := d, vm := some vm', descs := descs, pending := none }
     (s, .ok s.flags)
 
 /-! ## The controller callbacks -/
 
-/-- `handle_start_tag` (rewrite_controller.rs:137) -/
-def startTag (s : St) (name : LocalName) (ns : Model.Ns) : St × StartTagRes :=
-  match s.fault with
-  | some e => (s, .err e)
-  | none =>
+/-- `handle_start_tag` (rewrite_controller.rs:137), the body -/
+def startTagCore (s : St) (name : LocalName) (ns : Model.Ns) : St × StartTagRes :=
   match s.vm with
   | none => (s, .flags s.flags)
   | some vm =>
@@ -278,6 +281,12 @@ def startTag (s : St) (name : LocalName) (ns : Model.Ns) : St × StartTagRes :=
       | .ok f => (r.1, .flags f)
       | .error e => (r.1, .err e)
     | .ok (.infoRequest vm' req) => ({ s with vm := some vm', pending := some req }, .infoRequest)
+
+/-- `handle_start_tag`: a new start-tag event (ghost ordinal), unless a fault is pending -/
+def startTag (s : St) (name : LocalName) (ns : Model.Ns) : St × StartTagRes :=
+  match s.fault with
+  | some m => (s, .err (.panic m))
+  | none => startTagCore { s with ord := s.ord + 1 } name ns
 
 /-- the closure built by `respond_to_aux_info_request` (rewrite_controller.rs:106) -/
 def auxInfo (s : St) (info : AuxInfo) : St × Except Err Model.Flags :=
@@ -308,17 +317,17 @@ def endTag (s : St) (name : LocalName) : St × Model.Flags :=
   | none => (s, s.flags)
   | some vm =>
     match vm.execForEndTag (nameBytes name) with
-    | .error p => let s := { s with fault := some (vmErr p) }; (s, s.flags)
+    | .error _ => let s := { s with fault := some vmMsg }; (s, s.flags)
     | .ok (vm', popped) =>
       if popped.length ≤ s.descs.length then
         let keep := s.descs.length - popped.length
         match stopMatchingPopped s.disp popped (s.descs.drop keep) with
-        | .error p => let s := { s with fault := some (dispErr p) }; (s, s.flags)
+        | .error _ => let s := { s with fault := some dispMsg }; (s, s.flags)
         | .ok d =>
           let s := { s with disp := d, vm := some vm', descs := s.descs.take keep }
           (s, s.flags)
       else
-        let s := { s with fault := some (.panic "descs out of sync with the VM stack") }
+        let s := { s with fault := some syncMsg }
         (s, s.flags)
 
 /-- `should_emit_content` (rewrite_controller.rs:189) -/
@@ -457,7 +466,10 @@ def St.currentElementData (s : St) : Option ElementDescriptor :=
 
 /-- write back through the `&mut ElementDescriptor` -/
 def writeBack (descs : List Desc) : Option ElementDescriptor → List Desc
-  | some d => descs.dropLast ++ [{ endTagHandlerIdx := d.endTagHandlerIdx, removeContent := d.removeContent }]
+  | some d =>
+    match descs.getLast? with
+    | some top => descs.dropLast ++ [{ top with endTagHandlerIdx := d.endTagHandlerIdx, removeContent := d.removeContent }]
+    | none => descs
   | none => descs
 
 /-- `Token::StartTag` arm = `ContentHandlersDispatcher::handle_start_tag` (handlers_dispatcher.rs:257).
@@ -490,15 +502,14 @@ def tokStartTag (cfg : Cfg) (s : St) (name : Bytes) (attrs : List (Bytes × Byte
             | some h => s1.payloads ++ [⟨s1.ord, h⟩]
             | none => s1.payloads
           else s1.payloads
-        let s2 := { s1 with disp := d, descs := writeBack s1.descs desc, payloads := payloads,
-                            ord := s1.ord + 1 }
+        let s2 := { s1 with disp := d, descs := writeBack s1.descs desc, payloads := payloads }
         (s2, { chunks := [el.startTag.intoBytes encUtf8] })
   else (s, { chunks := [], err := some (.panic "token source range before the slice base") })
 
 /-- `handle_token` (rewrite_controller.rs:171) followed by `Token::into_bytes` -/
 def token (cfg : Cfg) (s : St) (t : Model.Token) : St × TokenOut :=
   match s.fault with
-  | some e => (s, { chunks := [], err := some e })
+  | some m => (s, { chunks := [], err := some (.panic m) })
   | none =>
   match t with
   | .startTag name attrs ns sc raw src base => tokStartTag cfg s name attrs ns sc raw src base
@@ -520,7 +531,7 @@ def runEndClosures (cfg : Cfg) : List HId → St → List Bytes → St × List B
 /-- `handle_end` (rewrite_controller.rs:182) -/
 def handleEnd (cfg : Cfg) (s : St) : St × List Bytes × Option Err :=
   match s.fault with
-  | some e => (s, [], some e)
+  | some m => (s, [], some (.panic m))
   | none =>
   match s.disp.end_.doForEachActiveAndRemoveTail with
   | .error p => (s, [], some (dispErr p))
